@@ -2,6 +2,17 @@
 HOOK_COMMITS = ["645c65a", "e34ba59", "f51c5d9", "f6ed18e", "079d75a", "f4d99a1"]
 NOT_APPLICABLE = {}
 LEVELS = {
+    "C03": {
+        "text": "Proof: C03_only_correct (whatever is delivered in whatever order, with duplicates, every stored key is f(0)•H), "
+                "C03_complete (threshold reached at a share message => all keys of the release stored from then on), "
+                "C03_keys_delivered, C03_agree; by induction over event sequences on top of C01's Lagrange theorems. The model is tied "
+                "to the real handlers by running n real stacks per flavour through delivery schedules; acceptance of honest messages by "
+                "every peer and the access node, correctness and completeness of the key tables are checked directly. One open known "
+                "finding (own shares completing the threshold do not trigger aggregation).",
+        "design_ref": "DESIGN.md §4 C03",
+        "note": "Trusted: Lean kernel + Mathlib; correspondence harness incl. noderig/pgfake/kdb; pairing abstraction as in C01.",
+        "technique": "Lean 4 + Mathlib theorems by induction over delivery sequences (on C01) + differential runs of n real handler stacks under sampled and exhaustive schedules",
+    },
     "C05": {
         "text": "Proof (partial): every index, slice and unchecked type assertion on message-derived data in the gossip-processing files "
                 "is listed from the source on each run and shown panic-free under its guard for all inputs (C05_sites_pinned, "
